@@ -1,6 +1,7 @@
 package vfkit
 
 import (
+	"sort"
 	"sync"
 	"testing/synctest"
 )
@@ -61,6 +62,17 @@ func (s *Sched) ParkedNow() []*Parked {
 	defer s.mu.Unlock()
 	out := make([]*Parked, len(s.parked))
 	copy(out, s.parked)
+	// Stable order independent of arrival order (two goroutines started together may
+	// reach their gates in either order): sort by label, then worker, then id.
+	sort.SliceStable(out, func(i, j int) bool {
+		if out[i].Label != out[j].Label {
+			return out[i].Label < out[j].Label
+		}
+		if out[i].Worker != out[j].Worker {
+			return out[i].Worker < out[j].Worker
+		}
+		return out[i].ID < out[j].ID
+	})
 	return out
 }
 
